@@ -233,13 +233,12 @@ pub fn child_emfile() -> i32 {
             return 0;
         }
     }
-    let rt = e4::runtime(2);
     let mut cases = 0u64;
     for ty in [Ty::Pull, Ty::Rep, Ty::Pub] {
         for tr in [Tr::Ipc, Tr::Tcp4] {
             for close in [true, false] {
                 cases += 1;
-                let viol = rt.block_on(emfile_case(ty, tr, close));
+                let viol = e4::block_on_deadline(2, e4::CASE_DEADLINE, move || async move { emfile_case(ty, tr, close).await }).unwrap_or_else(|| vec![(format!("runtime-hung/{}", ty.name()), format!("{} over {} after a failed accept, then {}: the case did not come back within {} s: a runtime thread is blocked for ever", ty.name(), tr.name(), if close { "close()" } else { "drop" }, e4::CASE_DEADLINE.as_secs()))]);
                 for (c, m) in viol {
                     println!("{}", json!({"finding": [c, m], "type": ty.name(), "transport": tr.name(), "action": if close { "close" } else { "drop" }}));
                 }
@@ -619,9 +618,13 @@ pub fn run(tier: Tier, replay: Option<String>) -> i32 {
                     continue;
                 }
                 let _turn = if cases[i].tr != Tr::Ipc { Some(tcp_turn.lock().unwrap()) } else { None };
-                let rt = e4::runtime(cases[i].workers);
-                let viol = rt.block_on(run_case(&cases[i]));
-                rt.shutdown_timeout(Duration::from_millis(200));
+                let c2 = cases[i].clone();
+                let viol = e4::block_on_deadline(cases[i].workers, e4::CASE_DEADLINE, move || async move { run_case(&c2).await }).unwrap_or_else(|| {
+                    vec![(
+                        format!("runtime-hung/{}", cases[i].ty.name()),
+                        format!("{} over {} after history '{}', then {}: the case did not come back within {} s although every wait in it has a {} s horizon: a thread of the socket's runtime is blocked for ever", cases[i].ty.name(), cases[i].tr.name(), HISTS[cases[i].hist], if cases[i].close { "close()" } else { "drop" }, e4::CASE_DEADLINE.as_secs(), e4::HORIZON.as_secs()),
+                    )]
+                });
                 if !viol.is_empty() {
                     found.lock().unwrap().push((i, viol));
                 }
@@ -644,10 +647,10 @@ pub fn run(tier: Tier, replay: Option<String>) -> i32 {
     }
     // ---- E4 child: accept() failing once (needs a process of its own: the descriptor limit is process-wide)
     let mut emfile_cases = 0u64;
-    if let Ok(exe) = std::env::current_exe() {
-        match std::process::Command::new(exe).args(["c17-emfile"]).output() {
-            Ok(o) if o.status.success() => {
-                for l in String::from_utf8_lossy(&o.stdout).lines() {
+    {
+        match e4::child_output(&["c17-emfile"], Duration::from_secs(900)) {
+            Ok((true, stdout)) => {
+                for l in stdout.lines() {
                     let Ok(v) = serde_json::from_str::<Value>(l) else { continue };
                     if let Some(n) = v["cases"].as_u64() {
                         emfile_cases = n;
@@ -666,8 +669,8 @@ pub fn run(tier: Tier, replay: Option<String>) -> i32 {
                     }
                 }
             }
-            Ok(o) => ck.machinery_error(format!("c17-emfile child exited with {:?}", o.status)),
-            Err(e) => ck.machinery_error(format!("cannot run c17-emfile child: {}", e)),
+            Ok((false, _)) => ck.machinery_error("c17-emfile child exited abnormally".to_string()),
+            Err(e) => ck.machinery_error(format!("c17-emfile child: {}", e)),
         }
     }
     ck.cov("e4_accept_failure_cases", emfile_cases);
